@@ -354,6 +354,18 @@ def oracle(case, obs):
             out.append(("%s = %r, but %s says %r  [files %s; argv %s]" % (
                 dest, got, why, want, [(("~" if f["home"] else ".") + "/" + f["name"], f["behave"]) for f in case["files"]], render_argv(case)), sig))
 
+    # what the documented aliases force: -q is --no-snippets --no-source; --steps-catalog is --format=steps.catalog --dry-run
+    # --no-summary -q
+    if quiet or catalog:
+        for d in ("show_source", "show_snippets"):
+            if a.get(d) is not False:
+                out.append(("%s = %r although %s is in force (-q is an alias for --no-snippets --no-source)  [argv %s]" % (
+                    d, a.get(d), "--steps-catalog (which implies -q)" if catalog else "-q", render_argv(case)), "alias-not-applied:" + d))
+    if catalog:
+        for d, v in (("dry_run", True), ("summary", False), ("quiet", True)):
+            if a.get(d) is not v:
+                out.append(("%s = %r although --steps-catalog is in force (documented as --format=steps.catalog --dry-run --no-summary -q)"
+                            "  [argv %s]" % (d, a.get(d), render_argv(case)), "alias-not-applied:" + d))
     for dest in list(BOOLS) + list(SCALARS):
         if dest in forced:
             continue
